@@ -644,12 +644,17 @@ class JobNew(FSContract):
         if case["by"] in ("id", "both"):
             kw["id_"] = SId(i)
         ctx.overrides[(JOB, "RLock")] = NativeStub(lambda: None, "RLock")
-        return [o], kw, {"o": o, "sp": sp, "i": i, "proj": proj}
+        c = proj.fields["_sp_cache"]
+        return [o], kw, {"o": o, "sp": sp, "i": i, "proj": proj, "cache0": (c.dom, c.val)}
 
     def post(self, interp, case, pre, outcome):
         ex, ctx = interp.ex, interp.ctx
         o, sp, i, proj = pre["o"], pre["sp"], pre["i"], pre["proj"]
         ex.oblige(self.oname("frame:constructing_a_handle_touches_nothing_on_disk"), ctx.fs.eq(ctx.fs0))
+        c = proj.fields["_sp_cache"]
+        x = z3.Const("jn_x", Id)
+        ex.oblige(self.oname("frame:constructing_a_handle_registers_nothing_in_the_project's_state_point_cache_(only_initialised_/_loaded_jobs_are_known_by_id)"),
+                  z3.ForAll([x], z3.And(c.dom[x] == pre["cache0"][0][x], z3.Implies(c.dom[x], c.val[x] == pre["cache0"][1][x]))))
         if case["by"] == "none":
             ex.oblige(self.oname("raises:ValueError_without_statepoint_and_id"), z3.BoolVal(outcome[0] == "raise" and isinstance(outcome[1], ValueError)))
             return
